@@ -492,7 +492,7 @@ void big_operand_ops(Enumerator &E) {
             }
     // format strings with 300 / 1100 bytes of literal text, every spelling of the call
     for (unsigned fi = 11; fi < 14; fi++)
-        for (unsigned var = 0; var < 11; var++)
+        for (unsigned var = 0; var < 12; var++)
             for (uint32_t a1 : {5u, 40u, 300u}) {
                 Builder b; uint32_t s = b.str(a1); uint32_t t2 = b.str(16);
                 Op o; o.kind = S_FORMAT; o.a = s; o.b = t2; o.c = fi; o.d = var;
@@ -517,10 +517,10 @@ void big_operand_ops(Enumerator &E) {
             }
     // ST::format(substitute_invalid, ...) and wide arguments (well-formed and malformed) with the short formats
     for (unsigned fi : {0u, 2u, 4u})
-        for (unsigned var = 8; var < 11; var++)
+        for (unsigned var = 8; var < 12; var++)
             for (int corrupt = 0; corrupt < 2; corrupt++)
                 for (uint32_t a1 : {5u, 40u, 300u}) {
-                    if (corrupt && var == 8) continue;
+                    if (corrupt && (var == 8 || var == 11)) continue;
                     Builder b; uint32_t s = b.str(a1); uint32_t t2 = b.str(16);
                     Op o; o.kind = S_FORMAT; o.a = s; o.b = t2; o.c = fi; o.d = var;
                     if (corrupt) { o.fault = F_CORRUPT; o.fc = 1 | (40 << 8); }
